@@ -179,6 +179,8 @@ def run_case(ctx, case, model=True):
                 sysres = {"electric": r.electric_system, "mechanical": r.mechanical_system}
     except Exception as e:
         ctx.count("rejected", core.error_class(e))
+        if not (isinstance(e, NotImplementedError) or "COGAS" in str(e) or "not available" in str(e)):    # FuelEU factors not offered: the code says so
+            ctx.fail("predicate", "calculation-raises-" + core.error_class(e), f"{type(e).__name__}: {e}", where)
         return False
     if not all(np.all(np.isfinite(np.asarray(o.power_output, dtype=float))) for o in plant.by_name.values()):
         ctx.count("skipped", "bus-without-capacity")
